@@ -10,7 +10,7 @@
    prefix-preference bounds are validated by the oracle (naive recurrence on every case inside the
    documented limits; every input run with prefer_prefix off and on), not proved. *)
 From Coq Require Import NArith List Bool.
-From NV Require Import Model.Matcher Spec.Matching Spec.Statements Proofs.C05Facts Proofs.ScoreFacts Proofs.DPSingle Proofs.DPScoreFacts Proofs.PrefixFacts.
+From NV Require Import Model.Matcher Spec.Matching Spec.Statements Proofs.C05Facts Proofs.ScoreFacts Proofs.DPSingle Proofs.DPScoreFacts Proofs.PrefixFacts Proofs.RecurrenceFacts.
 Import ListNotations.
 Local Open Scope N_scope.
 
@@ -40,7 +40,7 @@ Proof. exact DPSingle.C04_single. Qed.
    the matrix path for two-character needles (C04_prefix_outside_K2); `dp_taken` is the executable
    Known predicate. *)
 Definition known_K2 (cfg : config) (a : algo) (hs ns : ustr) : Prop :=
-  a = Fuzzy /\ (3 <= length (cs ns))%nat /\ PrefixFacts.dp_taken cfg hs ns = true.
+  a = Fuzzy /\ (3 <= length (cs ns))%nat /\ dp_taken cfg hs ns = true.
 Theorem C04_prefix_outside_K2 :
   forall cfg a hs ns s0 i0 s1 i1, bonus_bounded cfg -> ~ known_K2 cfg a hs ns ->
     run (with_prefix cfg false) a hs ns = Match s0 i0 -> run (with_prefix cfg true) a hs ns = Match s1 i1 ->
@@ -48,12 +48,17 @@ Theorem C04_prefix_outside_K2 :
 Proof.
   intros cfg a hs ns s0 i0 s1 i1 Hb HK H0 H1.
   apply (PrefixFacts.C04_prefix_weak cfg a hs ns s0 i0 s1 i1 Hb); [|exact H0|exact H1].
-  intros ->. destruct (PrefixFacts.dp_taken cfg hs ns) eqn:D; [|right; reflexivity].
+  intros ->. destruct (dp_taken cfg hs ns) eqn:D; [|right; reflexivity].
   left. destruct (Compare_dec.le_lt_dec (length (cs ns)) 2) as [L|L]; [exact L|].
   exfalso. apply HK. repeat split; [exact L|exact D].
 Qed.
 Theorem C04_prefix_refuted : ~ C04_prefix_stmt.
 Proof. exact PrefixFacts.C04_prefix_counterexample. Qed.
+
+(* on the matrix path the optimal matcher's score is never below the documented two-matrix recurrence
+   evaluated naively over the whole haystack (Spec/Matching.naive_score) *)
+Theorem C04_recurrence : C04_recurrence_stmt.
+Proof. exact RecurrenceFacts.C04_recurrence. Qed.
 
 (* the matrix path is taken within the documented limits (100 KiB cells, needle 2048, haystack 65535):
    the translated guard of MatrixSlab::alloc is the documented one *)
@@ -73,3 +78,4 @@ Print Assumptions C04_single.
 Print Assumptions C04_prefix_outside_K2.
 Print Assumptions C04_prefix_refuted.
 Print Assumptions C04_slab_guard.
+Print Assumptions C04_recurrence.
